@@ -176,8 +176,22 @@ static inline void tally_d(const struct cas *c, struct tally *t, const long long
     t->cnt[c->nb]++;        /* inside the support bounds but in no bin of the plan */
 }
 
-#define RUNC(expr) do { for (long i_ = 0; i_ < n; i_++) { const double x_ = (expr); tally_c(c, t, x_); } return true; } while (0)
-#define RUND(expr) do { for (long i_ = 0; i_ < n; i_++) { const long long v_ = (long long)(expr); tally_d(c, t, v_); } return true; } while (0)
+/* In the second half of a case every measured draw is preceded by a call of ANOTHER sampler (rotating: gamma shapes around the
+ * measured one, geometric with two parameters, a coin flip): the thread-local parameter and bit caches of the library see
+ * misses and hits in between, which must not change the distribution of the measured sampler. */
+static void disturb(const struct cas *c, long i)
+{
+    switch (i % 6) {
+    case 0: (void)cmb_random_std_gamma(1.5); break;
+    case 1: (void)cmb_random_geometric(0.3); break;
+    case 2: (void)cmb_random_std_gamma(0.5 + (double)((i / 6) % 3)); break;
+    case 3: (void)cmb_random_flip(); break;
+    case 4: (void)cmb_random_geometric(1.0); break;
+    default: if (c->np >= 1 && c->p[0] > 0.0 && c->p[0] < 50.0) (void)cmb_random_std_gamma(c->p[0] + 1.0); break;
+    }
+}
+#define RUNC(expr) do { for (long i_ = 0; i_ < n; i_++) { if (i_ >= n / 2) disturb(c, i_); const double x_ = (expr); tally_c(c, t, x_); } return true; } while (0)
+#define RUND(expr) do { for (long i_ = 0; i_ < n; i_++) { if (i_ >= n / 2) disturb(c, i_); const long long v_ = (long long)(expr); tally_d(c, t, v_); } return true; } while (0)
 #define IS(name) (strcmp(c->s, name) == 0)
 
 static bool draw_many(const struct cas *c, struct tally *t, const long n, const struct cmb_random_alias *ap)
